@@ -109,6 +109,8 @@ class FakeDispatcher(YowConnectionDispatcher):
                         self._down()
             elif cmd[0] == "close":
                 self._down()
+                if rig.redundant_down:
+                    self.connectionCallbacks.onDisconnected()
             elif cmd[0] == "end":
                 break
         rig.log.append(("dispatcher.connect_returned",))
@@ -123,6 +125,9 @@ class FakeDispatcher(YowConnectionDispatcher):
         self.rig.log.append(("dispatcher.disconnect", self.up))
         if self.up:
             self._down()
+            if self.rig.redundant_down:
+                # real dispatchers may report the same connection down more than once (close followed by an error/EOF path)
+                self.connectionCallbacks.onDisconnected()
             self.inbox.put(("end",))
 
     def sendData(self, data):
@@ -155,7 +160,7 @@ class Top(YowLayer):
 
 class Rig(object):
     def __init__(self, choices=(), upper=(Top,), config=None, server=None, trace_lines=False, props=None, max_steps=300000,
-                 profile_name="verif", write_config=None):
+                 profile_name="verif", write_config=None, profile=None):
         install()
         S.ALL_LOCKS[:] = []
         self.sched = S.Scheduler(choices, TRACE_FILES, trace_lines=trace_lines, max_steps=max_steps)
@@ -167,10 +172,15 @@ class Rig(object):
         self.log = []
         self.recv_errors = []
         self.close_on_recv_error = False
+        self.redundant_down = False
         self.writes_while_down = []
         self.server = server or NoiseServer()
-        self.config = config or Config(phone="4915112345", cc="49", client_static_keypair=KeyPair.generate())
-        self.profile = YowProfile(profile_name, self.config)
+        if profile is not None:
+            self.profile = profile
+            self.config = profile.config
+        else:
+            self.config = config or Config(phone="4915112345", cc="49", client_static_keypair=KeyPair.generate())
+            self.profile = YowProfile(profile_name, self.config)
         self.config_writes = []
         if write_config is None:
             def _wc(c):
@@ -234,15 +244,17 @@ class Rig(object):
             return True
         return False
 
-    def take_client_bytes(self):
+    def take_client_bytes(self, only=None):
         out = b""
         for d in self.dispatchers:
+            if only is not None and d is not only:
+                continue
             if d.sent:
                 out += bytes(d.sent)
                 del d.sent[:]
         return out
 
-    def shuttle(self, chunker=None, max_rounds=30):
+    def shuttle(self, chunker=None, max_rounds=30, only=None):
         """run the scheduler and move bytes both ways until nothing moves any more.
         chunker(bytes) -> list of chunks for server->client delivery.  Returns the list of ProtocolViolation raised by
         the server double (a real server would have dropped the connection)."""
@@ -250,7 +262,7 @@ class Rig(object):
         for _ in range(max_rounds):
             self.run()
             moved = False
-            b = self.take_client_bytes()
+            b = self.take_client_bytes(only)
             if b:
                 moved = True
                 try:
@@ -262,7 +274,8 @@ class Rig(object):
             if o:
                 moved = True
                 for ch in (chunker(o) if chunker else [o]):
-                    self.deliver(ch)
+                    if only is None or self.current is only:
+                        self.deliver(ch)
                     self.run()
             if not moved:
                 break
